@@ -12,6 +12,8 @@ from tiv.mutate import M
 from tiv.sem import trace
 
 RULES = {
+    "MEMO": "memo safety (shared, rules/common.py): a memoised function in this property's files (or called from them) is a function of its "
+            "arguments only (no terminal/ambient/receiver state outside the key) and no caller mutates its result in place",
     "R1": "every function that stores to utils._swap_win_size, or stores True to utils._queries_enabled, resets "
           "utils._cell_size_cache[:] to zeros inside `with utils._cell_size_lock` on every normal path after the store; the "
           "store of _queries_enabled=True precedes the invalidations (a concurrent reader must not re-fill a cache with a "
@@ -242,6 +244,9 @@ def run(ck, m):
     ck.ob("R5", gcr, ok, "get_cell_ratio must return the stored ratio if set, else recompute from get_cell_size()", stmt="get_cell_ratio")
     ck.min_instances("R5", 5)
     ck.min_instances("R3", 8)
+
+    from rules.common import rule_memo_safety
+    rule_memo_safety(ck, m, "MEMO", "C15")
 
 
 def _declares_global(fn, name):
